@@ -40,6 +40,7 @@ import (
 	"os"
 	"path/filepath"
 	"reflect"
+	"regexp"
 	"runtime"
 	"sort"
 	"strconv"
@@ -1239,7 +1240,30 @@ func (w *world) countSnap(before map[string]string) {
 
 // exec makes one call against an endpoint of its own and classifies what was
 // observed.  snap=false in concurrent sets (the set takes the snapshot).
-func (w *world) exec(spec callSpec, snap bool) *callResult { return w.execOn(spec, snap, nil) }
+func (w *world) exec(spec callSpec, snap bool) *callResult {
+	res := w.execOn(spec, snap, nil)
+	if !noServerSideTrace(res) {
+		return res
+	}
+	// The client reports a failure ON an established TCP connection of which the
+	// listener's accept loop has seen nothing, not even after the probe behind it
+	// was accepted: the connection was reset below the application (the machine's
+	// ephemeral ports are shared with every other process; seen under heavy port
+	// churn).  Neither side of the property acted; the call is made again on a
+	// fresh endpoint and that one is judged.
+	w.r.Count("calls_repeated_after_a_reset_the_listener_never_saw", 1)
+	res = w.execOn(spec, snap, nil)
+	if noServerSideTrace(res) {
+		w.r.Inconclusive("twice in a row a connection was reset before the listener accepted it: " + res.Err)
+	}
+	return res
+}
+
+var tcpFailRe = regexp.MustCompile(`(read|write) tcp [0-9.:\[\]a-f]+->[0-9.:\[\]a-f]+: (read|write): (connection reset by peer|broken pipe)`)
+
+func noServerSideTrace(res *callResult) bool {
+	return !res.Watchdog && res.Accepts == 0 && res.ClientHellos == 0 && len(res.Events) == 0 && tcpFailRe.MatchString(res.Err)
+}
 
 // execOn is exec against an endpoint shared with earlier calls of the same
 // process (shared == nil: an endpoint of its own); the server-side counts are
@@ -2291,6 +2315,7 @@ func Run(r *mon.Run) {
 
 	r.Count("proxy_requests_other_than_connect", 0)
 	r.Count("proxy_dial_failures", 0)
+	r.Count("calls_repeated_after_a_reset_the_listener_never_saw", 0)
 	r.Count("connections_from_other_processes_ignored_by_the_listeners", 0)
 	r.Count("host_sequences_skipped_localhost_does_not_resolve", 0)
 	// certificate content: twins
